@@ -352,7 +352,7 @@ def _waiters(loop: VLoop) -> Any:
 
 # ------------------------------------------------------------------ overlapping runs (C08)
 def run_overlapping(spec: Spec, behs: List[Behaviour], cfg: Cfg, charts: List[Any],
-                    cancel_first_at: Any = None) -> List[Obs]:
+                    cancel_first_at: Any = None, start_delays: Optional[List[Any]] = None) -> List[Obs]:
     """Several chart.run coroutines on one virtual loop (one chart or charts sharing node classes)."""
     loop = new_loop(cfg)
     rcs = [make_rc(spec, b, cfg, loop) for b in behs]
@@ -364,6 +364,9 @@ def run_overlapping(spec: Spec, behs: List[Behaviour], cfg: Cfg, charts: List[An
     def mk(i: int) -> Any:
         async def one() -> Any:
             CUR.set(rcs[i])
+            if start_delays is not None:
+                # a staggered start: the run begins while the others are wherever their durations have taken them
+                await asyncio.sleep(start_delays[i])
             try:
                 return await charts[i].run(pipeline_id="pid%d" % i, input_kwargs=inps[i])
             finally:
